@@ -58,7 +58,9 @@ Theorem gen_signed_checker_eq : forall t q r value digit, sgn t = true ->
 Proof.
   intros t q r value digit Hs.
   unfold S.sck_i8_g, S.sck_i16_g, S.sck_i32_g, S.sck_i64_g, would_overflow_m. rewrite Hs. cbn [fst snd].
-  repeat split; reflexivity.
+  (* reflexivity when the regenerated term is literally the model's; otherwise decided semantically (an
+     equivalent rewrite of the comparison in the C++ source must not break the tie) *)
+  repeat split; first [reflexivity | f_equal; lia].
 Qed.
 
 Theorem gen_unsigned_checker_eq : forall t q r value digit, sgn t = false ->
@@ -69,5 +71,7 @@ Theorem gen_unsigned_checker_eq : forall t q r value digit, sgn t = false ->
 Proof.
   intros t q r value digit Hs.
   unfold S.uck_u8_g, S.uck_u16_g, S.uck_u32_g, S.uck_u64_g, would_overflow_m. rewrite Hs. cbn [fst snd].
-  repeat split; reflexivity.
+  (* reflexivity when the regenerated term is literally the model's; otherwise decided semantically (an
+     equivalent rewrite of the comparison in the C++ source must not break the tie) *)
+  repeat split; first [reflexivity | f_equal; lia].
 Qed.
